@@ -45,16 +45,20 @@ Record case := mk_case {
   c_icu_cat : N;                    (* plural keys: the category icu_plurals gives for (locale asked for, rule type, count),
                                        as printed by the probe: 0 zero .. 5 other; 6 = not a plural key *)
   c_vars : list (str * str);        (* variable key ("var_x") -> the value passed *)
-  c_comps : list (str * str);       (* component key ("comp_b") -> the html tag the passed component wraps children in *)
+  c_comps : list (str * (str * list (str * str)));
+                                    (* component key ("comp_b") -> the html tag the passed component wraps children in and
+                                       the attributes (name, value) it carries *)
   c_string_outputs : list str;      (* td_string, td_display, t_string, ..., const chain, scoped variants *)
   c_view_outputs : list str }.      (* td, t, tu, scoped variants *)
 
 Fixpoint assoc (k : str) (l : list (str * str)) : str :=
   match l with [] => [] | (k', v) :: r => if str_eqb k' k then v else assoc k r end.
+Fixpoint assoc_comp (k : str) (l : list (str * (str * list (str * str)))) : str * list (str * str) :=
+  match l with [] => ([], []) | (k', v) :: r => if str_eqb k' k then v else assoc_comp k r end.
+(** attribute values are printed verbatim between double quotes: what DisplayComp writes, and what leptos writes
+    after the canonicaliser has decoded its entity escaping of ampersand, angle brackets and the double quote *)
 Definition env_of (c : case) : env :=
-  mk_env (fun k => assoc k (c_vars c))
-         (fun k => c_lt :: assoc k (c_comps c) ++ [c_gt])
-         (fun k => c_lt :: c_slash :: assoc k (c_comps c) ++ [c_gt]).
+  env_with_attrs (fun v => v) (fun k => assoc k (c_vars c)) (fun k => assoc_comp k (c_comps c)).
 
 (** the locale whose translation must be shown (C03's rule, stated on the configuration): the first locale of
     the walk l, inherits l, inherits (inherits l) ... that defines the key, the default (locale 0) when the walk
